@@ -68,12 +68,17 @@ pub enum Fam {
     /// to an equal value), and `outer` is also observed on its own, so that it is recomputed while the
     /// shared node is unneeded (no keys) -- added after seeded change C16-a
     SharedHalfPinned,
+    /// (c') `|k, v| outer.bind(|d| if d even { v.map(|x| 10k + x) } else { constant(8 + k) })`: a bind on the
+    /// *outer* variable that decides whether the key's input node is read at all; the closure keeps holding `v`
+    /// while nothing reads it, so the key's value can change while its per-key input node is alive but unneeded
+    /// (added after seeded change C16-c)
+    OuterSwitch,
 }
 
 impl Fam {
-    pub const ALL: [Fam; 10] = [Fam::Pure, Fam::Identity, Fam::Map2, Fam::BindExisting, Fam::BindFresh, Fam::IgnoreConst, Fam::IgnoreOuter, Fam::SharedOuter, Fam::SharedConst, Fam::SharedHalfPinned];
+    pub const ALL: [Fam; 11] = [Fam::Pure, Fam::Identity, Fam::Map2, Fam::BindExisting, Fam::BindFresh, Fam::IgnoreConst, Fam::IgnoreOuter, Fam::SharedOuter, Fam::SharedConst, Fam::SharedHalfPinned, Fam::OuterSwitch];
     pub fn uses_outer(self) -> bool {
-        matches!(self, Fam::Map2 | Fam::BindExisting | Fam::BindFresh | Fam::IgnoreOuter | Fam::SharedOuter | Fam::SharedHalfPinned)
+        matches!(self, Fam::Map2 | Fam::BindExisting | Fam::BindFresh | Fam::IgnoreOuter | Fam::SharedOuter | Fam::SharedHalfPinned | Fam::OuterSwitch)
     }
     pub fn name(self) -> &'static str {
         match self {
@@ -87,6 +92,7 @@ impl Fam {
             Fam::SharedOuter => "shared_outer",
             Fam::SharedConst => "shared_const",
             Fam::SharedHalfPinned => "shared_half_pinned",
+            Fam::OuterSwitch => "outer_switch",
         }
     }
     /// the family of the property text this variant belongs to (used in cause signatures)
@@ -95,7 +101,7 @@ impl Fam {
             Fam::Pure => "pure",
             Fam::Identity => "identity",
             Fam::Map2 => "map2",
-            Fam::BindExisting | Fam::BindFresh => "bind",
+            Fam::BindExisting | Fam::BindFresh | Fam::OuterSwitch => "bind",
             Fam::IgnoreConst | Fam::IgnoreOuter => "ignore",
             Fam::SharedOuter | Fam::SharedConst | Fam::SharedHalfPinned => "shared",
         }
@@ -123,6 +129,13 @@ impl Fam {
             Fam::SharedOuter => 50 + d,
             Fam::SharedConst => KONST,
             Fam::SharedHalfPinned => 50 + d.div_euclid(2),
+            Fam::OuterSwitch => {
+                if d % 2 == 0 {
+                    10 * k + x
+                } else {
+                    KONST + k
+                }
+            }
         }
     }
 }
@@ -340,6 +353,26 @@ fn user_fn<T: Out>(fam: Fam, state: &IncrState, outer: &Incr<i32>) -> UserFn<T> 
                         log(Ev::Fn { key: Some(k), role: "inner", args: vec![x, *d] });
                         T::wrap(fam.per_key(k, x, *d))
                     })
+                })
+            })
+        }
+        Fam::OuterSwitch => {
+            let outer = outer.clone();
+            let ws = state.weak();
+            Box::new(move |k, v| {
+                let k = *k;
+                let ws = ws.clone();
+                outer.bind(move |d| {
+                    let d = *d;
+                    log(Ev::Fn { key: Some(k), role: "bind", args: vec![d] });
+                    if d % 2 == 0 {
+                        v.map(move |x| {
+                            log(Ev::Fn { key: Some(k), role: "inner", args: vec![*x, d] });
+                            T::wrap(fam.per_key(k, *x, d))
+                        })
+                    } else {
+                        ws.constant(T::wrap(fam.per_key(k, 0, d)))
+                    }
                 })
             })
         }
@@ -622,7 +655,11 @@ impl PkWorld {
         // cutoff of the `_cutoff(Fn)` programs is consulted each time such a node recomputes
         // with an old value: the operator recomputes an input node only after it saw the key's
         // value differ, so equal arguments mean a per-key node of an unchanged key recomputed.
-        if log.iter().any(|e| matches!(e, Ev::Cutoff { old, new } if old == new)) {
+        // (Not when the key's entry did change in this round and merely returned to the value the node computed
+        // last -- the node can have skipped the values in between while nothing read it; family `outer_switch`.
+        // The first version of this rule had no such exception and raised a false alarm there.)
+        let explained = |v: &V| cur.iter().any(|(k, x)| x == v && prev.get(k) != Some(x));
+        if log.iter().any(|e| matches!(e, Ev::Cutoff { old, new } if old == new && !explained(new))) {
             vs.push(v17(
                 "C17.unchanged_key_recomputed",
                 format!("input_node_equal_values:{class}{gap}"),
@@ -929,7 +966,7 @@ mod tests {
             }
             w.teardown();
         }
-        assert_eq!(crate::pkmaps::programs("c16/all-k2", crate::plan::Tier::Quick).len(), 102);
+        assert_eq!(crate::pkmaps::programs("c16/all-k2", crate::plan::Tier::Quick).len(), 114);
         assert_eq!(crate::pkmaps::programs("c16/identity-k3", crate::plan::Tier::Quick).len(), 6);
     }
 
